@@ -32,8 +32,8 @@ import (
 // output. Result: the boundary log (vocabulary: lean/FileD/Model/RetryTrace.lean).
 
 func init() {
-	execs["c09.trace"] = execC09
-	execs["c09.overlap"] = func(t *hx.Toks) string { return execC09x(t, true) }
+	execs["c09.trace"] = watchedExec(c09Idle, c09Total, func(t *hx.Toks, w *watched) string { return execC09core(t, false, false, w) })
+	execs["c09.overlap"] = watchedExec(c09Idle, c09Total, func(t *hx.Toks, w *watched) string { return execC09core(t, true, false, w) })
 	execs["c09.stop"] = ExecC09StopInBackoff
 	gens["C09"] = genC09
 }
@@ -433,9 +433,13 @@ func (p *c09DQ) Out(ev *pipeline.Event) {
 	p.batcher.Add(ev)
 }
 
-func execC09(t *hx.Toks) string { return execC09x(t, false) }
-
-func execC09x(t *hx.Toks, overlap bool) string { return execC09core(t, overlap, false) }
+// watchdog of one case: no boundary event (other than heartbeat ticks) for c09Idle, or c09Total in all.
+// The longest silent stretch of a live case is a back-off pause (<= 0.2 s) or the wait for the dead queue's idle
+// flush (5 heartbeat ticks); whole cases take well under 3 s on an idle machine.
+const (
+	c09Idle  = 4 * time.Second
+	c09Total = 25 * time.Second
+)
 
 // ExecC09StopInBackoff runs a case of the "Stop during a retry sequence" family. It does not look at the
 // command token (the family can be registered under another property's prefix, e.g. `c01.retry`):
@@ -452,9 +456,11 @@ func execC09x(t *hx.Toks, overlap bool) string { return execC09core(t, overlap, 
 //	0  control: no early Stop
 //
 // The trace vocabulary is c09.trace's (`x` = the main batcher's Stop); no `w` is logged after an early Stop.
-func ExecC09StopInBackoff(t *hx.Toks) string { return execC09core(t, false, true) }
+func ExecC09StopInBackoff(t *hx.Toks) string {
+	return runWatched(c09Idle, c09Total, func(w *watched) string { return execC09core(t, false, true, w) })
+}
 
-func execC09core(t *hx.Toks, overlap bool, stopFamily bool) string {
+func execC09core(t *hx.Toks, overlap bool, stopFamily bool, wd *watched) string {
 	workers, count, nbytes, retry, retentionMs := t.Int(), t.Int(), t.Int(), t.Int(), t.Int()
 	dqmode, dqworkers, dqcount, adders := t.Int(), t.Int(), t.Int(), t.Int()
 	stopMode := 0
@@ -497,6 +503,9 @@ func execC09core(t *hx.Toks, overlap bool, stopFamily bool) string {
 	rng := hx.NewRng(seed)
 	var rngMu sync.Mutex
 	log := newTLog()
+	if wd != nil {
+		wd.log.Store(log)
+	}
 	rig := &c09Rig{log: log, evs: evs, curSeq: map[uint64]int64{}, curCB: map[uint64]*tEntry{}, attempt: map[int64]int{},
 		batches: map[int64]*pipeline.Batch{}, started: map[int64]bool{}, script: script, giveUpWait: make(chan struct{}),
 		overlap: overlap, park: make(chan parkReq), okCh: make(chan int64, 64), outDone: make(chan int64, 64),
@@ -530,10 +539,15 @@ func execC09core(t *hx.Toks, overlap bool, stopFamily bool) string {
 		router.SetDeadQueueOutput(&pipeline.OutputPluginInfo{PluginStaticInfo: &pipeline.PluginStaticInfo{Type: "c09dq"},
 			PluginRuntimeInfo: &pipeline.PluginRuntimeInfo{Plugin: dqP, ID: "dq"}})
 	}
+	hookGen := c09HookGen.Add(1)
 	pipeline.VerifSetTrace(rig.trace)
 	pipeline.VerifSetGate(rig.gate)
-	defer pipeline.VerifSetTrace(nil)
-	defer pipeline.VerifSetGate(nil)
+	defer func() {
+		if c09HookGen.Load() == hookGen { // an abandoned (stuck) case must not uninstall a later case's hooks
+			pipeline.VerifSetTrace(nil)
+			pipeline.VerifSetGate(nil)
+		}
+	}()
 	router.Start(&pipeline.OutputPluginParams{
 		PluginDefaultParams: pipeline.PluginDefaultParams{PipelineName: "verif", MetricCtl: mctl},
 		Controller:          rig, Router: router})
